@@ -97,6 +97,7 @@ type Exec struct {
 	symCache map[*Term]map[*Term]bool
 	noSlice  bool
 	subDone  map[*Term]bool
+	leadDone map[*Term]bool
 }
 
 type execErr struct{ msg string }
@@ -575,6 +576,12 @@ func (x *Exec) cutLoopAtHeader(fn *ssa.Function, l *Loop, spec *LoopSpec, st *St
 	}
 	mods := x.loopMods(l, st)
 	for obj := range mods.objs {
+		if cur, ok := st.Cells[obj].(SliceVal); ok {
+			// e.g. the slice inside a bytes.Buffer: stays a slice
+			ns := x.freshSlice(fmt.Sprintf("loop%d.obj%d", l.Ordinal, obj.ID), cur.Elem)
+			st.Cells[obj] = ns
+			continue
+		}
 		st.Cells[obj] = x.freshVal(fmt.Sprintf("loop%d.obj%d", l.Ordinal, obj.ID), obj.T)
 	}
 	if mods.heap {
@@ -662,8 +669,17 @@ func (x *Exec) loopMods(l *Loop, st *State) modSet {
 			case ssa.CallInstruction:
 				c := t.Common()
 				m.heap = true
+				touchesGhost := true
+				if sc := c.StaticCallee(); sc != nil {
+					if pp := fnPkg(sc); pp == nil || x.w.ByPath[pp.Pkg.Path()] == nil {
+						// external function: only the sync.Mutex schemas change ghost state
+						touchesGhost = strings.Contains(sc.String(), "sync.Mutex")
+					}
+				} else if _, isBuiltin := c.Value.(*ssa.Builtin); isBuiltin {
+					touchesGhost = false
+				}
 				for g := range st.Ghost {
-					if !strings.HasPrefix(g, "$") {
+					if !strings.HasPrefix(g, "$") && touchesGhost {
 						m.ghost[g] = true
 					}
 				}
